@@ -199,7 +199,8 @@ class Request(HTTPConnection):
                 body = self.body.decode(
                     encoding=self.content_type.options.get("charset", "latin-1")
                 )
-            except (UnicodeDecodeError, LookupError):
+            except (ValueError, LookupError):
+                # not decodable, an unknown charset, or a codec that refuses to decode
                 raise HTTPException(400, content="Malformed form body") from None
             return FormData(parse_qsl(body, keep_blank_values=True))
 
